@@ -122,7 +122,12 @@ impl System for IndSys {
 		}
 		v
 	}
-	fn actions(&self, s: &IState, _: u32) -> Vec<(usize, u8)> {
+	fn actions(&self, s: &IState, depth: u32) -> Vec<(usize, u8)> {
+		// prescribed use of the API: the instance is created from its first input, which is then also
+		// the first value fed to `next` (C08 is about that); so the stream always starts with c0
+		if depth == 0 {
+			return vec![(self.alphabet.len() + 2, 0)];
+		}
 		// absolute symbols plus two STATE-DEPENDENT ones: the previous candle shifted up / down by 1
 		// (steady trends, consecutive new highs / lows)
 		let n = self.alphabet.len();
@@ -144,6 +149,8 @@ impl System for IndSys {
 			"prev+1".into()
 		} else if *a == n + 1 {
 			"prev-1".into()
+		} else if *a == n + 2 {
+			"c0".into()
 		} else {
 			In::C(self.alphabet[*a]).show()
 		}
@@ -154,6 +161,8 @@ impl System for IndSys {
 			shift(&s.prev, 1.0)
 		} else if *a == self.alphabet.len() + 1 {
 			shift(&s.prev, -1.0)
+		} else if *a == self.alphabet.len() + 2 {
+			s.prev
 		} else {
 			self.alphabet[*a]
 		};
